@@ -40,9 +40,13 @@ pub fn eval(ctx: &mut Ctx, bits: &[bool], w: usize, tag: &str) {
     match guard(|| bm.unicode()) {
         Err(p) => return ctx.violation("unicode_panic", &case(), p),
         Ok(s) => {
-            let lines: Vec<&str> = s.split('\n').collect();
+            // the statement does not fix whether the last line is terminated: accept both
+            let mut lines: Vec<&str> = s.split('\n').collect();
+            if lines.last().map_or(false, |l| l.is_empty()) {
+                lines.pop();
+            }
             let nl = (h + 2 + 1) / 2;
-            if lines.len() != nl + 1 || !lines[nl].is_empty() {
+            if lines.len() != nl {
                 return ctx.violation("unicode_line_count", &case(), format!("{} lines for height {}", lines.len(), h));
             }
             for (li, line) in lines[..nl].iter().enumerate() {
